@@ -22,7 +22,8 @@ set_option linter.unusedVariables false
 namespace NotationModel.C05.TieV
 open NotationModel.Src NotationModel.C05.Tie
 
-abbrev CRs := List revocationresult.CertRevocationResult
+/-- what a checker answers: one entry per certificate; an entry may be nil (`[]*CertRevocationResult`) -/
+abbrev CRs := List (Option revocationresult.CertRevocationResult)
 
 /-- the action the outcome's level gives the revocation validation -/
 def actionOf (outcome : c05.VerificationOutcome) : trustpolicy.ValidationAction :=
@@ -107,12 +108,13 @@ theorem source_verifyRevocation_validator_first (val : revocation.Validator) (c1
   simp [source_verifyRevocation_refines_spec, spec, answerOf]
 
 /-- **The whole chain is checked**: the result passes exactly when the checker answered without
-an error and the MODEL's aggregation of its answers over the complete chain is OK
+an error and the MODEL's aggregation of its answers over the complete chain is OK - a nil answer
+for a certificate counting as `unknown` (`resOf`), so a vector with a nil entry never passes
 (composition with `source_revocationFinalResult_refines_model`). -/
 theorem source_verifyRevocation_model (v : c05.verifier) (outcome : c05.VerificationOutcome) :
     (c05v.verifyRevocation v outcome).Error = none ↔
       ∃ rs, answerOf v outcome = some (rs, none) ∧
-        (revocationFinalFor (chainOf outcome).length (rs.map (fun c => toR c.Result))).1 = .ok := by
+        (revocationFinalFor (chainOf outcome).length (rs.map resOf)).1 = .ok := by
   rw [source_verifyRevocation_refines_spec]
   unfold spec
   cases ha : answerOf v outcome with
@@ -123,8 +125,33 @@ theorem source_verifyRevocation_model (v : c05.verifier) (outcome : c05.Verifica
     | some e => simp [failed]
     | none =>
       simp only [source_revocationFinalResult_refines_model]
-      cases hf : (revocationFinalFor (chainOf outcome).length (rs.map (fun c => toR c.Result))).1 <;>
+      cases hf : (revocationFinalFor (chainOf outcome).length (rs.map resOf)).1 <;>
         simp [hf, passed, failed, ofFinal]
+
+/-- **A nil entry fails closed**: a checker that answers, without an error, a vector holding a nil
+entry yields a FAILED revocation result - whatever the other entries say. -/
+theorem source_verifyRevocation_nil_entry_fails (v : c05.verifier) (outcome : c05.VerificationOutcome)
+    (rs : CRs) (ha : answerOf v outcome = some (rs, none)) (hn : none ∈ rs) :
+    (c05v.verifyRevocation v outcome).Error.isSome := by
+  have h := source_verifyRevocation_model v outcome
+  cases he : (c05v.verifyRevocation v outcome).Error with
+  | some e => rfl
+  | none =>
+    exfalso
+    obtain ⟨rs', ha', hok⟩ := h.mp he
+    have e : rs' = rs := by
+      have := ha.symm.trans ha'
+      simp only [Option.some.injEq, Prod.mk.injEq] at this
+      exact this.1.symm
+    subst e
+    by_cases hl : (rs'.map resOf).length = (chainOf outcome).length
+    · rw [← hl, final_complete] at hok
+      have hall := (final_ok_iff (rs'.map resOf)).mp hok
+      rw [List.all_eq_true] at hall
+      have := hall (resOf none) (List.mem_map_of_mem hn)
+      simp [resOf, R.good] at this
+    · rw [final_incomplete _ _ hl] at hok
+      simp at hok
 
 /-- every result carries type revocation and the action of the level -/
 theorem source_verifyRevocation_type_action (v : c05.verifier) (outcome : c05.VerificationOutcome) :
